@@ -130,28 +130,35 @@ func VerifC10WriteConvPipe() {
 }
 
 // VerifC01FlagOverride: --bpm/--meter/--key/--velocity replace the first instance's settings
-// and nothing else.
+// and nothing else. Each flag is absent, set to an unusual value, or set to the very value
+// crd uses as its default (C, 100, 4/4, mp) — which is still an explicit override of what the
+// first instance says.
 func VerifC01FlagOverride() {
 	in := vf.TempPath("flags-in.yml")
 	verifReset(in)
 	defer verifReset(in)
-	os.WriteFile(in, []byte(verifDoc("m7")), 0o644)
+	doc := strings.Replace(verifDoc("m7"), "  bpm: 90\n", "  bpm: 90\n  key: G\n  meter: 3/4\n  velocity: ff\n", 1)
+	os.WriteFile(in, []byte(doc), 0o644)
 	var args []string
-	setKey := vf.NondetIntRange("key", 0, 1) == 1
-	setBPM := vf.NondetIntRange("bpm", 0, 1) == 1
-	setMeter := vf.NondetIntRange("meter", 0, 1) == 1
-	setVel := vf.NondetIntRange("velocity", 0, 1) == 1
-	if setKey {
-		args = append(args, "--key", "Ebm")
+	keyC := vf.NondetIntRange("key", 0, 2)
+	bpmC := vf.NondetIntRange("bpm", 0, 2)
+	meterC := vf.NondetIntRange("meter", 0, 2)
+	velC := vf.NondetIntRange("velocity", 0, 2)
+	keyV := []string{"G", "Ebm", "C"}[keyC]
+	bpmV := []string{"90", "150", "100"}[bpmC]
+	meterV := []string{"3/4", "6/8", "4/4"}[meterC]
+	velV := []string{"ff", "pp", "mp"}[velC]
+	if keyC > 0 {
+		args = append(args, "--key", keyV)
 	}
-	if setBPM {
-		args = append(args, "--bpm", "150")
+	if bpmC > 0 {
+		args = append(args, "--bpm", bpmV)
 	}
-	if setMeter {
-		args = append(args, "--meter", "6/8")
+	if meterC > 0 {
+		args = append(args, "--meter", meterV)
 	}
-	if setVel {
-		args = append(args, "--velocity", "pp")
+	if velC > 0 {
+		args = append(args, "--velocity", velV)
 	}
 	vf.Assert("flags-parse", writeCmd.ParseFlags(args) == nil && writeCmdParse.ParseFlags(nil) == nil)
 	base, berr := newWriteCmdArgs(writeCmdParse, []string{in})
@@ -161,10 +168,25 @@ func VerifC01FlagOverride() {
 		return
 	}
 	f, b := got.instances[0], base.instances[0]
-	vf.Assert("key-flag-replaces-first-instance-key", (f.Key != nil && f.Key.String() == "Ebm") == setKey && (setKey || f.Key == nil))
-	vf.Assert("bpm-flag-replaces-first-instance-bpm", f.BPM != nil && uint(*f.BPM) == map[bool]uint{true: 150, false: 90}[setBPM])
-	vf.Assert("meter-flag-replaces-first-instance-meter", (f.Meter != nil && f.Meter.Num == 6 && f.Meter.Denom == 8) == setMeter)
-	vf.Assert("velocity-flag-replaces-first-instance-dynamic", (f.Velocity != nil && *f.Velocity == op.Pianissimo) == setVel)
+	// (the effective value is compared: leaving a setting unset when it equals crd's default
+	// would mean the same file)
+	effKey, effBPM, effMeter, effVel := "C", uint(100), "4/4", op.MezzoPiano
+	if f.Key != nil {
+		effKey = f.Key.String()
+	}
+	if f.BPM != nil {
+		effBPM = uint(*f.BPM)
+	}
+	if f.Meter != nil {
+		effMeter = []string{"0", "1", "2", "3", "4", "5", "6"}[f.Meter.Num%7] + "/" + []string{"0", "1", "2", "3", "4", "5", "6", "7", "8"}[f.Meter.Denom%9]
+	}
+	if f.Velocity != nil {
+		effVel = *f.Velocity
+	}
+	vf.Assert("key-flag-replaces-first-instance-key", effKey == keyV)
+	vf.Assert("bpm-flag-replaces-first-instance-bpm", effBPM == map[string]uint{"90": 90, "150": 150, "100": 100}[bpmV])
+	vf.Assert("meter-flag-replaces-first-instance-meter", effMeter == meterV)
+	vf.Assert("velocity-flag-replaces-first-instance-dynamic", effVel == op.NewDynamicSign(velV))
 	vf.Assert("flags-leave-the-music-alone", f.Chord != nil && b.Chord != nil && f.Chord.Degree == b.Chord.Degree && f.Chord.Base == b.Chord.Base && f.Chord.Chord.Name == b.Chord.Chord.Name && len(f.Values) == len(b.Values))
 	rest := append([]op.Instance{}, got.instances[1:]...)
 	vf.Assert("flags-touch-only-the-first-instance", verifSameInstances(rest, base.instances[1:]))
